@@ -185,3 +185,80 @@ func TestPerm(t *testing.T) {
 		t.Errorf("Perm(4,*) yields %d distinct permutations", len(seen))
 	}
 }
+
+// with reduction: private accesses are not scheduling points; the lost update is still found because the
+// conflict on the counter is learned and becomes a scheduling point in the second round
+func TestReducedLostUpdate(t *testing.T) {
+	var counter int
+	var private [2]int
+	results := map[int]int{}
+	mk := func() []func() {
+		counter = 0
+		inc := func(i int) func() {
+			return func() {
+				for k := 0; k < 20; k++ {
+					hook.Store(unsafe.Pointer(&private[i]), 8, 9) // thread-private work
+				}
+				hook.Global(unsafe.Pointer(&counter), false, 1)
+				v := counter
+				hook.Global(unsafe.Pointer(&counter), true, 2)
+				counter = v + 1
+			}
+		}
+		return []func(){inc(0), inc(1)}
+	}
+	races := 0
+	st, rounds, learned := ExploreReduced(mk, attach, Options{Bound: -1}, func(x *Execution) string {
+		results[counter]++
+		races += len(x.Races)
+		return "x"
+	})
+	if results[1] == 0 || races == 0 {
+		t.Errorf("reduced exploration missed the lost update: results=%v races=%d", results, races)
+	}
+	if rounds < 2 || learned != 1 {
+		t.Errorf("rounds=%d learned=%d, want >=2 rounds and exactly the counter learned", rounds, learned)
+	}
+	// 2 (round 1: no yield points) + C(6,3)=20 interleavings of 3 steps each (start, read, write) in round 2
+	if st.Schedules != 2+20 {
+		t.Errorf("schedules=%d, want 22", st.Schedules)
+	}
+}
+
+// a mutex-protected check-then-act in two critical sections is race-free but not atomic: found at the sync points
+func TestReducedAtomicityViolation(t *testing.T) {
+	var mu, cache int
+	var filled bool
+	var fills int
+	mk := func() []func() {
+		filled, fills = false, 0
+		f := func() {
+			hook.Sync(unsafe.Pointer(&mu), "lock")
+			hook.Global(unsafe.Pointer(&cache), false, 1)
+			have := filled
+			hook.Sync(unsafe.Pointer(&mu), "unlock")
+			if !have {
+				hook.Sync(unsafe.Pointer(&mu), "lock")
+				hook.Global(unsafe.Pointer(&cache), true, 2)
+				filled = true
+				fills++
+				hook.Sync(unsafe.Pointer(&mu), "unlock")
+			}
+		}
+		return []func(){f, f}
+	}
+	double, races := 0, 0
+	ExploreReduced(mk, attach, Options{Bound: -1}, func(x *Execution) string {
+		if fills == 2 {
+			double++
+		}
+		races += len(x.Races)
+		return "x"
+	})
+	if races != 0 {
+		t.Errorf("locked accesses reported as races: %d", races)
+	}
+	if double == 0 {
+		t.Errorf("double fill (atomicity violation) not found")
+	}
+}
